@@ -1598,7 +1598,10 @@ def _c12_oracle(corr: Corr, h: Hist, io) -> None:
             break
         else:
             f = fields_of(op[1])
-            if f is not None and is_wake(before["proto"], f) and f[0] in before["nodes"]:
+            if f is not None and is_wake(before["proto"], f) and f[0] in before["nodes"] and not _heartbeat_accepted(before["proto"], f):
+                # a heartbeat response whose payload is no number is an invalid message, not a wake (what is held stays held)
+                corr.count("oracle: heartbeat response with a payload that is no number (no wake)")
+            elif f is not None and is_wake(before["proto"], f) and f[0] in before["nodes"]:
                 got = [w[0] for w in o["writes"] if w[1]]
                 failed = o["out"] in ("err transportFailed", "foreign CancelledError") and any(not w[1] for w in o["writes"])
                 flagged = before["nodes"][f[0]]["sleeping"]
@@ -1626,6 +1629,19 @@ def _c12_oracle(corr: Corr, h: Hist, io) -> None:
     left = [k for k, e in pending.items() if e["node"] in io[-1]["nodes"]]
     if h.version in V20 and left:
         corr.violate("a held message was never released although its node woke", {"history": h.to_json(), "pending": [list(k) for k in left]})
+
+
+def _heartbeat_accepted(proto: str, f) -> bool:
+    """2.0 / 2.1: the wake signal is the heartbeat response, whose payload the handler reads as an integer (Python's
+    `int`) BEFORE it releases anything; a payload that is no integer makes the line an invalid message.  The wake
+    signal of 2.2 (pre-sleep notification) carries a payload nobody reads."""
+    if proto == "2.2":
+        return True
+    try:
+        int(f[5])
+    except ValueError:
+        return False
+    return True
 
 
 def _c12_between_kinds(v: str, n: int, m: int, pay):
@@ -1917,8 +1933,13 @@ def _c12_object_histories(ctx, corr: Corr):
             elif r < 0.95:
                 h.ops.append(gw.SESSION)
             else:
-                h.ops.append(("recv", gw.gen_line(rng, v, [1, 2]), (), t0))
-        h.ops += [("recv", f"{n};255;3;0;{wake_t};500", (), t0) for n in (1, 2, 1, 2)]
+                # any line from one of the two nodes, or a rejected one (not from the gateway: the active protocol stays)
+                line = gw.gen_line(rng, v, [1, 2])
+                while line.count(";") >= 5 and line.split(";")[0] not in ("1", "2"):
+                    line = gw.gen_line(rng, v, [1, 2])
+                h.ops.append(("recv", line, (), t0))
+        # every node an object may be addressed to wakes at the end (3 is registered only if an id request came by)
+        h.ops += [("recv", f"{n};255;3;0;{wake_t};500", (), t0) for n in (1, 2, 3, 1, 2, 3)]
         hists.append(h)
     corr.count("histories: random histories over the caller's objects", n_rand)
     return hists
